@@ -24,7 +24,10 @@ EXPLANATION = (
     "tuple()/join/unpacking/pop()/next(iter()) is followed through names, containers, derived sequences and nested loops to "
     "its consumers: membership, any/all/len/sum/min/max/sorted/set/Counter, Add/Mul, set.add/update, keyed stores, commutative "
     "accumulation, diagnostics and pop() of a set established to have one element end the taint; return/yield, indexing, "
-    "arguments of other functions, per-element effects, order-sensitive comparison are sinks; sorted()/sort()/min()/max() end "
+    "arguments of functions that cannot be looked into, per-element effects, order-sensitive comparison are sinks (an "
+    "argument of a resolvable repository function is followed through the bound parameter of the callee like a local name, a "
+    "tainted return value taints the call; a parameter that receives a set at a call site is itself unordered; a value that "
+    "leaves a private helper only by return is followed into all its callers); sorted()/sort()/min()/max() end "
     "the taint only when their key separates any two elements - the key function is evaluated on a symbolic element and "
     "every returned key must contain the element itself or its dummy_index (sort_idx_canonical does, (space, spin) or a name "
     "does not: ties keep the hash order); an in-place list.sort() with such a key ends "
@@ -71,8 +74,9 @@ ASSUMPTIONS = [
     "iteration orders: sorted and reversed), not for all inputs",
     "derivation skeletons are evaluated for bounded orders/spaces only (quick: orders <= 3, norm_factor/s_root <= 6; thorough adds order 4, "
     "s_root 7, doubles blocks); wicks, simplify, operators and tensors are uninterpreted, indices follow the reference registry model",
-    "order taint does not follow values through calls of other repository functions (an argument is a sink) nor through "
-    "attributes of self; set-valued dict entries (d[k] being a set) are not typed as unordered",
+    "order taint follows a value into a repository function only when the callee is uniquely resolved (bare name, self./cls. "
+    "method), back out of private/nested helpers only when all callers are known; other calls (sympy, methods of other "
+    "objects) are sinks; attributes of self are not followed; set-valued dict entries (d[k] being a set) are not typed as unordered",
     "call-graph closure resolves attribute calls by method name over the whole package (over-approximation)",
     "R19e explores histories of depth <= 3 with spin-free occupied requests; R19i models inspect.signature/bind/apply_defaults, "
     "functools.wraps and property by reference implementations; R19j models the expression as a list of tensor names "
@@ -377,10 +381,91 @@ class SetOrder:
                     return True
             if any(self.unordered(v, sc, depth - 1, seen) for v in sc.values(e.id)):
                 return True
+            if e.id in sc.params and not sc.values(e.id) and depth > 1 and self.param_unordered(sc.fn, e.id, depth - 2):
+                return True
             return e.id in self.tainted_dicts(sc)
         if isinstance(e, ast.Attribute) and e.attr in SET_METHODS:
             return True
         return False
+
+    def param_unordered(self, fn, pname, depth=2):
+        """some call of the (private or nested) function inside the package passes a set for this parameter"""
+        if not hasattr(self, "_calls_by_name"):
+            self._calls_by_name, self._punord = {}, {}
+            for m in self.model.modules.values():
+                for n in ast.walk(m.tree):
+                    if isinstance(n, ast.Call):
+                        self._calls_by_name.setdefault(call_name(n), []).append(n)
+        key = (id(fn), pname)
+        if key in self._punord:
+            return self._punord[key]
+        self._punord[key] = False
+        params = [a.arg for a in fn.args.posonlyargs + fn.args.args]
+        for call in self._calls_by_name.get(fn.name, []):
+            f = call.func
+            if isinstance(f, ast.Name):
+                if not any(g is fn for g in self.cg.resolve_name(f.id, call)):
+                    continue
+                ps = params
+            elif isinstance(f, ast.Attribute) and isinstance(f.value, ast.Name) and f.value.id in ("self", "cls") and \
+                    call._module is fn._module and getattr(call, "_cls", None) == getattr(fn, "_cls", None):
+                ps = params[1:] if params and params[0] in ("self", "cls") else params
+            else:
+                continue
+            arg = None
+            for k, a in enumerate(call.args):
+                if isinstance(a, ast.Starred):
+                    break
+                if k < len(ps) and ps[k] == pname:
+                    arg = a
+            for kw in call.keywords:
+                if kw.arg == pname:
+                    arg = kw.value
+            caller = enclosing(call, FuncNode)
+            if arg is not None and caller is not None and self.unordered(arg, self.scope(caller), depth):
+                self._punord[key] = True
+                break
+        return self._punord[key]
+
+    def callers(self, fn):
+        """call expressions inside the package that call the private / nested function ``fn`` (None: not all are known)"""
+        self.param_unordered(fn, "")        # builds the call index
+        if not (fn.name.startswith("_") and not fn.name.startswith("__") or getattr(fn, "_fn", None) is not None):
+            return None
+        out = []
+        for call in self._calls_by_name.get(fn.name, []):
+            f = call.func
+            if isinstance(f, ast.Name) and any(g is fn for g in self.cg.resolve_name(f.id, call)):
+                out.append(call)
+            elif isinstance(f, ast.Attribute) and isinstance(f.value, ast.Name) and f.value.id in ("self", "cls") and \
+                    call._module is fn._module and getattr(call, "_cls", None) == getattr(fn, "_cls", None):
+                out.append(call)
+            elif isinstance(f, ast.Attribute):
+                return None     # called on another object: not all callers are known
+        return out or None
+
+    def through_callers(self, sinks, fn, depth=2):
+        """a value that only leaves a private helper through its return value is followed into the callers"""
+        rets = [s for s in sinks if s[1] in ("returned", "yielded")]
+        if not rets or depth <= 0:
+            return sinks
+        calls_ = self.callers(fn)
+        if calls_ is None:
+            return sinks
+        out = [s for s in sinks if s[1] not in ("returned", "yielded")]
+        for call in calls_:
+            caller = enclosing(call, FuncNode)
+            if caller is None:
+                out.append((call, "result used at module level"))
+                continue
+            saved = self.sc
+            self.sc = self.scope(caller)
+            try:
+                inner = self.value_sinks(call, False)
+            finally:
+                self.sc = saved
+            out.extend(self.through_callers(inner, caller, depth - 1))
+        return out
 
     def returns_unordered(self, fn):
         if id(fn) not in self._ret_unordered:
@@ -628,7 +713,10 @@ class SetOrder:
             return self.value_sinks(p, nested)
         if isinstance(p, ast.keyword):
             call = p._parent
-            return [] if call_name(call) in ORDER_FREE_CALLS and not nested else [(call, f"passed to {call_name(call)}(..)")]
+            if call_name(call) in ORDER_FREE_CALLS and not nested:
+                return []
+            r = self.into_callee(call, v, nested)
+            return r if r is not None else [(call, f"passed to {call_name(call)}(..)")]
         if isinstance(p, ast.Call):
             nm = call_name(p)
             if nm in ("sorted", "min", "max") and not nested and not self.total_key(p):
@@ -644,7 +732,8 @@ class SetOrder:
                 return []
             if isinstance(p.func, ast.Attribute) and nm in SEQ_GROW | {"add", "update", "setdefault"}:
                 return self.container_sinks(p.func.value, p, nested=True)
-            return [(p, f"passed to {nm}(..)")]
+            r = self.into_callee(p, v, nested)
+            return r if r is not None else [(p, f"passed to {nm}(..)")]
         if isinstance(p, ast.Attribute):        # v.method(...) / v.attr
             call = getattr(p, "_parent", None)
             if not (isinstance(call, ast.Call) and call.func is p):
@@ -739,6 +828,50 @@ class SetOrder:
         if isinstance(p, ast.Raise):
             return []
         return [(p, f"used in {type(p).__name__}")]
+
+    def into_callee(self, call, arg, nested):
+        """The tainted value is an argument of a repository function that can be looked into: follow the bound parameter
+        through the callee exactly like a local name; a tainted return value taints the call expression in the caller.
+        None: the callee is unknown (sympy, builtins, methods of other objects) - the caller treats the call as a sink."""
+        f = call.func
+        cands = []
+        if isinstance(f, ast.Name):
+            cands = [g for g in self.cg.resolve_name(f.id, call) if isinstance(g, FuncNode)]
+        elif isinstance(f, ast.Attribute) and isinstance(f.value, ast.Name) and f.value.id in ("self", "cls"):
+            cls = getattr(call, "_cls", None)
+            g = call._module.functions.get(f"{cls}.{f.attr}") if cls else None
+            cands = [g] if g is not None else []
+        if len(cands) != 1 or any(isinstance(a, ast.Starred) for a in call.args) or any(k.arg is None for k in call.keywords):
+            return None
+        g = cands[0]
+        if g.args.vararg or g.args.kwarg or any(isinstance(x, (ast.Yield, ast.YieldFrom)) for x in walk_fn(g, nested=False)) and False:
+            return None
+        params = [a.arg for a in g.args.posonlyargs + g.args.args]
+        if isinstance(f, ast.Attribute) and params and params[0] in ("self", "cls"):
+            params = params[1:]
+        pname = None
+        for k, a in enumerate(call.args):
+            if a is arg and k < len(params):
+                pname = params[k]
+        for kw in call.keywords:
+            if kw.value is arg:
+                pname = kw.arg
+        if pname is None or pname not in [a.arg for a in g.args.posonlyargs + g.args.args + g.args.kwonlyargs]:
+            return None
+        key = ("callee", id(g), pname, nested)
+        if key in self.seen:
+            return []
+        self.seen.add(key)
+        saved = self.sc
+        self.sc = self.scope(g)
+        try:
+            inner = self.name_sinks(pname, g.args, nested)
+        finally:
+            self.sc = saved
+        out = [(s, f"{why} in {g.name}()") for s, why in inner if why not in ("returned", "yielded")]
+        if any(why in ("returned", "yielded") for _, why in inner):
+            out.extend(self.value_sinks(call, False))       # the result of the call carries the order
+        return out
 
     def _is_dict(self, e, depth=3):
         if isinstance(e, (ast.Dict, ast.DictComp)):
@@ -1223,7 +1356,7 @@ def r19a_sets(ctx):
             n_sites += 1
             oref = f"{ref.split(':')[0]}:{sc.fn._qual}"
             origin = _origin(so, src, sc)
-            sinks = so.sinks_of_read(src, node, sc)
+            sinks = so.through_callers(so.sinks_of_read(src, node, sc), sc.fn)
             run_node = node.iter if isinstance(node, ast.comprehension) else node
             entry = reached.get(id(run_node))
             key = f"{oref} {origin}"
